@@ -292,12 +292,14 @@ func (c *Cache) getSubscription(name string, subscribe bool) (*EventSubscription
 			eventSub.enqueueEvent(subj, payload)
 		})
 		if err != nil {
+			verifNote("cacheGetFail", "name", name, "count", eventSub.count, "created", !ok)
 			return nil, err
 		}
 
 		eventSub.mqSub = mqSub
 	}
 
+	verifNote("cacheGet", "name", name, "count", eventSub.count, "created", !ok, "subscribe", subscribe, "mqSub", eventSub.mqSub != nil)
 	return eventSub, nil
 }
 
@@ -328,12 +330,15 @@ func (c *Cache) mqUnsubscribe(v interface{}) {
 	// The entry may already have been evicted by an earlier callback that
 	// was overtaken by a resubscribe and release of the same entry.
 	if c.eventSubs[eventSub.ResourceName] != eventSub {
+		verifNote("cacheEvict", "name", eventSub.ResourceName, "done", false, "count", int64(-1))
 		return
 	}
 
 	if !eventSub.mqUnsubscribe() {
+		verifNote("cacheEvict", "name", eventSub.ResourceName, "done", false, "count", eventSub.count)
 		return
 	}
+	verifNote("cacheEvict", "name", eventSub.ResourceName, "done", true, "count", eventSub.count)
 
 	delete(c.eventSubs, eventSub.ResourceName)
 
